@@ -26,21 +26,26 @@ def r1(ctx):
     ctx.ob("R1", stmts and stmts[0].verb == "CREATE TABLE" and all(s.verb == "CREATE TABLE" for s in stmts),
            "the schema script consists of CREATE TABLE statements only (no DROP)", node=ctx.proj.module("constants").toplevel.get("SCHEMA"),
            sig="SCHEMA verbs %s" % sorted({s.verb for s in stmts}), nontrivial=False)
+    # create() evaluated on the model database: on an empty database it builds the tables and fills them; on a database that
+    # already holds the tables the schema script fails loudly (nothing is dropped, nothing is swallowed)
+    from . import scen
+    from .. import minidb
     cr = require_func(ctx, "create._DBCreator.create")
-    cfg = cfg_of(cr)
-    it = [c for c in calls_in(cr.node) if call_attr(c) == "_init_tables"]
-    pop = [c for c in calls_in(cr.node) if call_attr(c) == "_populate_from_lines"]
-    ctx.require(it and pop, "create() no longer calls _init_tables and _populate_from_lines")
-    ok = cfg.dominates(cfg.node_for(it[0]).id, cfg.node_for(pop[0]).id) and cfg.node_for(it[0]).id != cfg.node_for(pop[0]).id
-    ctx.ob("R1", ok, "tables are created before any row is written", func=cr,
-           sig="_init_tables dominates _populate_from_lines" if ok else "rows can be written before the schema is created")
-    init = require_func(ctx, "create._DBCreator._init_tables")
-    scr = [c for c in calls_in(init.node) if call_attr(c) == "executescript" and c.args and norm(c.args[0]) == "constants.SCHEMA"]
-    ctx.ob("R1", bool(scr), "_init_tables runs the SCHEMA script", func=init, sig="_init_tables executes constants.SCHEMA" if scr else "_init_tables does not run SCHEMA")
-    guarded = [c for c in scr if any(True for _ in guards_of(c, init.node))]
-    handlers = [n for n in ast.walk(init.node) if isinstance(n, ast.ExceptHandler)]
-    ctx.ob("R1", not guarded and not handlers, "the schema script runs unconditionally and its failure is not swallowed", func=init,
-           sig="schema creation unguarded" if not guarded and not handlers else "schema creation guarded or its error handled")
+    lines = scen.gff_lines()
+    im, t = scen.run_create(ctx, "_GFFDBCreator", lines)
+    ok = t.result[0] == "return" and set(im.db.tables) >= {x.table.lower() for x in tables} and len(im.table("features")) == len(lines)
+    ctx.ob("R1", ok, "create() on an empty database makes the tables first and then stores every line (tables exist before any row is written)", func=cr,
+           sig="create(): tables, then %d rows" % len(lines) if ok else "create() on an empty database: %s" % (str(t.result[:3]),))
+    db = minidb.MiniDB()
+    db.script(script)
+    db.execute("INSERT INTO features (id) VALUES (?)", ("old",))
+    im2 = scen.Import(ctx, "_GFFDBCreator", db=db)
+    im2.me.attrs["iterator"] = scen.IterVal(scen.gff_lines())
+    t2 = im2.call("create")
+    kept = [r[0] for r in db.rows("features", ["id"])]
+    ok = t2.result[0] == "raise" and "OperationalError" in str(t2.result[1]) and kept == ["old"]
+    ctx.ob("R1", ok, "create() over a database that already has the tables raises (sqlite3.OperationalError from the schema script) and leaves the old rows untouched", func=cr,
+           sig="create() over existing tables raises, old rows kept" if ok else "create() over existing tables: %s, rows %s" % (t2.result[:2], kept[:4]))
 
 
 def r2(ctx, eff):
